@@ -156,6 +156,9 @@ def harness_args(flavour, extra=()):
     return a
 
 
+TIMEOUT_SITES = set()
+
+
 def run_harness_chunk(exe, lines, args, timeout=600):
     """Runs the harness on `lines`; survives crashes by restarting after the crashing line.
     Returns list of result strings aligned with lines."""
@@ -170,6 +173,8 @@ def run_harness_chunk(exe, lines, args, timeout=600):
             out = p.stdout.split("\n")
             rc = p.returncode
             err = p.stderr
+            for mm in re.finditer(r"Time limit exceeded in ([^\s:]+):(\d+)", err):
+                TIMEOUT_SITES.add("%s:%s" % (os.path.basename(mm.group(1)), mm.group(2)))
         except subprocess.TimeoutExpired as ex:
             out = (ex.stdout or b"").decode(errors="replace").split("\n") if isinstance(ex.stdout, bytes) else (ex.stdout or "").split("\n")
             rc = -9
@@ -312,8 +317,7 @@ def match_known(known, pid, op, result, verdict, flavour=None):
     for k in known:
         if k.get("status") != "known":
             continue
-        if pid not in k.get("properties", [k.get("property")]):
-            continue
+        # the "properties" field documents where the defect belongs; a finding suppresses its replay in whichever check meets it
         if "flavour" in k and k["flavour"] != flavour:
             continue
         if "op" in k and not re.search(k["op"], op):
@@ -356,6 +360,7 @@ class Run:
         self.known_hits = {}    # finding id -> (finding, count, example)
         self.notes = {}
         self.batches = []
+        self.ignore_tags = None     # regex of failure tags that belong to another property's check
 
     def batch(self, name, lines, flavour="asan", args=(), nontrivial=None, sample=3):
         """Run one batch of op lines through harness (flavour) and judge; record coverage."""
@@ -379,6 +384,8 @@ class Run:
             if kind == "ok":
                 if nontrivial is None or nontrivial(l, r, v):
                     self.distinct.add(hashlib.sha1(l.encode()).digest()[:8])
+            elif kind == "FAIL" and self.ignore_tags and re.search(self.ignore_tags, tag):
+                self.tags["other-property " + tag] = self.tags.get("other-property " + tag, 0) + 1
             elif kind in ("FAIL", "bad-op"):
                 k = match_known(known, self.pid, l, r, v, flavour)
                 if k:
